@@ -452,4 +452,203 @@ theorem sim_close (a : FArm) (s : ArmState) (h : Sim a s) (hok : a.EncOk) (hf : 
               rw [hb2, hb1]
               exact ⟨fun _ => rfl, List.prefix_rfl⟩
 
+/-! ## whole runs: constructor, any `Write`s (the caller carrying on whatever they return), `Close` -/
+
+/-- the state after the `Write`s of `ws`, whatever they returned -/
+def farmRun (a : FArm) (ws : List Bytes) : FArm := ws.foldl (fun a b => (a.write b).2) a
+
+theorem farm_calls_writes : ∀ (ws : List Bytes) (a : FArm), (FArm.calls a (ws.map some)).2 = farmRun a ws := by
+  intro ws
+  induction ws with
+  | nil => intro a; rfl
+  | cons b ws ih =>
+    intro a
+    rw [List.map_cons]
+    unfold FArm.calls
+    simp only
+    rw [ih]
+    rfl
+
+theorem farmRun_failed : ∀ (ws : List Bytes) (a : FArm), a.failed = true → farmRun a ws = a := by
+  intro ws
+  induction ws with
+  | nil => intro a _; rfl
+  | cons b ws ih =>
+    intro a hf
+    unfold farmRun
+    rw [List.foldl_cons, farm_write_failed a b hf]
+    exact ih a hf
+
+theorem run_sim : ∀ (ws : List Bytes) (a : FArm) (s : ArmState), Sim a s → a.EncOk → a.failed = false →
+    ((farmRun a ws).failed = false →
+      Sim (farmRun a ws) (ws.foldl ArmState.write s) ∧ (farmRun a ws).EncOk ∧ (farmRun a ws).w.faults = a.w.faults) ∧
+    (farmRun a ws).w.bytes <+: (ws.foldl ArmState.write s).out := by
+  intro ws
+  induction ws with
+  | nil =>
+    intro a s h hok hf
+    refine ⟨fun _ => ⟨h, hok, rfl⟩, ?_⟩
+    show a.w.bytes <+: s.out
+    rw [h.out]; exact List.prefix_rfl
+  | cons b ws ih =>
+    intro a s h hok hf
+    have hstep : farmRun a (b :: ws) = farmRun (a.write b).2 ws := rfl
+    rw [hstep, List.foldl_cons]
+    obtain ⟨w1, w2⟩ := sim_write a s h hok hf b
+    have hflag := farm_write_flag a b hf
+    have hfl := farm_write_faults a b
+    cases hr : (a.write b).1 with
+    | true =>
+      rw [hr] at hflag hfl
+      simp only [Bool.not_true, Bool.true_or, if_true, Nat.add_zero] at hflag hfl
+      obtain ⟨i1, i2⟩ := ih (a.write b).2 (s.write b) (w1 hr) (farm_encOk_write a b hok).2 hflag
+      refine ⟨fun hh => ?_, i2⟩
+      obtain ⟨j1, j2, j3⟩ := i1 hh
+      exact ⟨j1, j2, by rw [j3, hfl]⟩
+    | false =>
+      rw [hr] at hflag
+      simp only [Bool.not_false] at hflag
+      rw [farmRun_failed ws _ hflag]
+      refine ⟨fun hh => ?_, w2.trans (arm_fold_mono ws _)⟩
+      rw [hflag] at hh; cases hh
+
+theorem farm_init_sim (par : Armor.Params) (hdr ftr : Bytes) (sink : Stream.Sink)
+    (hi : (FArm.init par hdr ftr ({ sink := sink } : Wr)).1 = true) :
+    Sim (FArm.init par hdr ftr ({ sink := sink } : Wr)).2 (ArmState.init par hdr ftr) ∧
+    (FArm.init par hdr ftr ({ sink := sink } : Wr)).2.failed = false ∧
+    (FArm.init par hdr ftr ({ sink := sink } : Wr)).2.w.faults = 0 := by
+  have hb := wr_write_bytes ({ sink := sink } : Wr) (hdr ++ [Armor.period, Armor.space])
+  have hf := wr_write_faults ({ sink := sink } : Wr) (hdr ++ [Armor.period, Armor.space])
+  unfold FArm.init at hi ⊢
+  cases hw : ({ sink := sink } : Wr).write (hdr ++ [Armor.period, Armor.space]) with
+  | mk ok w' =>
+    rw [hw] at hb hf hi
+    simp only at hi
+    subst hi
+    simp only [if_true] at hb hf
+    refine ⟨⟨rfl, rfl, rfl, rfl, ?_, rfl, rfl⟩, rfl, ?_⟩
+    · show w'.bytes = hdr ++ [Armor.period, Armor.space]
+      rw [hb]; rfl
+    · show w'.faults = 0
+      rw [hf]
+
+/-- **`Close` never reports success for a message that was not completely
+    written** — the bare armor stream over a writer that fails as `sink` says,
+    any payload split over `Write`s in any way, the caller carrying on whatever
+    the `Write`s returned: if `Close` returns success then no underlying write
+    ever failed and the writer holds exactly the armored text of everything
+    passed to `Write`; and whatever happened the writer holds a prefix of it -/
+theorem farm_run_close (par : Armor.Params) (he : par.enc.WF) (hw : 0 < par.bytesPerWord) (hdr ftr : Bytes)
+    (sink : Stream.Sink) (ws : List Bytes) (hi : (FArm.init par hdr ftr ({ sink := sink } : Wr)).1 = true) :
+    ((farmRun (FArm.init par hdr ftr ({ sink := sink } : Wr)).2 ws).close.1 = true →
+      (farmRun (FArm.init par hdr ftr ({ sink := sink } : Wr)).2 ws).close.2.w.faults = 0 ∧
+      (farmRun (FArm.init par hdr ftr ({ sink := sink } : Wr)).2 ws).close.2.w.bytes =
+        Armor.sealText par hdr ftr ws.flatten) ∧
+    (farmRun (FArm.init par hdr ftr ({ sink := sink } : Wr)).2 ws).close.2.w.bytes <+:
+      Armor.sealText par hdr ftr ws.flatten := by
+  obtain ⟨hs, hf, h0⟩ := farm_init_sim par hdr ftr sink hi
+  obtain ⟨r1, r2⟩ := run_sim ws _ _ hs (farm_encOk_init par hdr ftr _) hf
+  rw [← armorWriter_any_split par he hw hdr ftr ws]
+  generalize farmRun (FArm.init par hdr ftr ({ sink := sink } : Wr)).2 ws = a at r1 r2 ⊢
+  generalize ws.foldl ArmState.write (ArmState.init par hdr ftr) = s at r1 r2 ⊢
+  cases hfa : a.failed with
+  | true =>
+    rw [farm_close_failed a hfa]
+    exact ⟨fun hh => (by cases hh), r2.trans (arm_close_mono s)⟩
+  | false =>
+    obtain ⟨j1, j2, j3⟩ := r1 hfa
+    obtain ⟨c1, c2⟩ := sim_close a s j1 j2 hfa
+    refine ⟨fun hh => ⟨?_, c1 hh⟩, c2⟩
+    have := farm_close_faults a
+    rw [hh] at this
+    simpa [j3, h0] using this
+
+/-! ## the byte count a `Write` returns -/
+
+theorem interior_count : ∀ (fuel : Nat) (s : EncState) (p : Bytes) (n : Nat),
+    (EncState.interior fuel s p n).1 = true →
+    (EncState.interior fuel s p n).2.2.2 + (EncState.interior fuel s p n).2.2.1.length = n + p.length := by
+  intro fuel
+  induction fuel with
+  | zero => intro s p n _; rfl
+  | succ fuel ih =>
+    intro s p n
+    unfold EncState.interior
+    by_cases hge : p.length ≥ s.enc.blockLen
+    · simp only [if_pos hge]
+      have hnn : (if 128 * s.enc.blockLen > p.length then p.length - p.length % s.enc.blockLen else 128 * s.enc.blockLen) ≤ p.length := by
+        split <;> omega
+      generalize (if 128 * s.enc.blockLen > p.length then p.length - p.length % s.enc.blockLen else 128 * s.enc.blockLen) = nn at hnn
+      cases hu : s.under (Basex.encode s.enc (p.take nn)) with
+      | mk ok s1 =>
+        cases ok with
+        | false => intro h; cases h
+        | true =>
+          simp only [Bool.not_true, Bool.false_eq_true, if_false]
+          intro h
+          have := ih s1 (p.drop nn) (n + nn) h
+          rw [List.length_drop] at this
+          omega
+    · simp only [if_neg hge]
+      intro _; trivial
+
+theorem encRest_count (s : EncState) (p : Bytes) (n : Nat) (h : (encRest s p n).2.1 = true) :
+    (encRest s p n).1 = n + p.length := by
+  have hc := interior_count (p.length + 1) s p n
+  unfold encRest at h ⊢
+  simp only at h ⊢
+  cases hi : (EncState.interior (p.length + 1) s p n).1 with
+  | false => rw [hi] at h; simp at h
+  | true =>
+    simp only [hi, Bool.not_true, Bool.false_eq_true, if_false]
+    exact hc hi
+
+/-- a BaseX encoder `Write` that reports success has consumed all of `p` -/
+theorem enc_write_count (s : EncState) (p : Bytes) (h : (s.write p).2.1 = true) : (s.write p).1 = p.length := by
+  rw [write_eq] at h ⊢
+  cases hF : s.failed with
+  | true => rw [hF] at h; simp at h
+  | false =>
+    rw [hF] at h
+    simp only [Bool.false_eq_true, if_false] at h ⊢
+    cases hB : (!s.buf.isEmpty) with
+    | false =>
+      rw [hB] at h
+      simp only [Bool.false_eq_true, if_false] at h ⊢
+      simpa using encRest_count s p 0 h
+    | true =>
+      rw [hB] at h
+      simp only [if_true] at h ⊢
+      have htl : encTl s p = min (s.enc.blockLen - s.buf.length) p.length := by
+        unfold encTl; rw [List.length_take]
+      by_cases hl : (encFringe s p).length < s.enc.blockLen
+      · simp only [hl, if_true]
+        unfold encFringe at hl
+        rw [List.length_append, List.length_take] at hl
+        rw [htl]; omega
+      · simp only [hl, if_false] at h ⊢
+        cases hU : (!(encFringeU s p).1) with
+        | true => rw [hU] at h; simp at h
+        | false =>
+          rw [hU] at h
+          simp only [Bool.false_eq_true, if_false] at h ⊢
+          rw [encRest_count _ _ _ h, List.length_drop, htl]
+          omega
+
+/-- `Write` of a stream that has not failed returns `len(b)` — also when
+    `spaceAndOutputBuffer` fails in it (`return n, err`) -/
+theorem farm_writeN_count (a : FArm) (b : Bytes) (hok : a.EncOk) (hf : a.failed = false) :
+    (a.writeN b).1 = b.length := by
+  have he := (farm_encOk_write a b hok).1
+  have hn := enc_write_count a.enc b he
+  unfold FArm.writeN
+  simp only [hf, Bool.false_eq_true, if_false]
+  rcases hw : a.enc.write b with ⟨n, ok, e'⟩
+  rw [hw] at he hn
+  simp only at he hn
+  subst he hn
+  simp only
+  cases FArm.spaceOut ((a.feed e').buf.length + 1) (a.feed e') with
+  | mk ok2 s2 => cases ok2 <;> rfl
+
 end Saltpack.Proofs.SenderP
